@@ -5,6 +5,11 @@ CFG = {
     "theorems": [
         "Leptos.Reactive.C02_effects_converge_readonly",
         "Leptos.Reactive.C02_effects_converge_nowrite",
+        "Leptos.Reactive.C02_effects_converge_nofeedback",
+        "Leptos.Reactive.C02_unnotified_effect_current",
+        "Leptos.Reactive.C02_disposed_never_runs",
+        "Leptos.Reactive.C02_paused_never_runs",
+        "Leptos.Reactive.C02_effects_converge_full_false",
         "Leptos.Reactive.C02_effects_converge_stmt_false",
         "Leptos.Reactive.C02_self_feedback_witness",
         "Leptos.Reactive.C02_lost_update_witness",
@@ -27,7 +32,7 @@ CFG = {
                 "invariant InvR + effect lemmas, Proofs/ReactiveConv.lean). For effects that write, the statement is REFUTED by a kernel-checked witness confirmed on the real "
                 "Effect (F-C02-2, a feedback loop: known finding). The lost-update defect of the code as found (F-C02-1) was REPAIRED by /repo commit 4084efd; its witness stays as a "
                 "regression theorem about the pre-repair model (runOld). No-glitch during runs follows from C01_read_eq_scratch (every read inside a run returns the from-scratch value). "
-                "Lifecycle clauses (disposed / paused effects never run, wake order) are covered by the executable model + correspondence oracles, not by theorems. The model "
+                "Also proved for ALL well-formed programs and all op kinds: C02_disposed_never_runs and C02_paused_never_runs (no run of e is ever logged after its disposal / while it is paused), C02_effects_converge_nofeedback (convergence for writing effects too when no effect writes a signal on which a node it reads depends), C02_unnotified_effect_current (between any two ops). Wake order is covered by the executable model + correspondence oracle, not by a theorem. The model "
                 "(Effect::new, RenderEffect, pause/resume/dispose at effect and root level, wake order, effects writing signals) is tied to reactive_graph by differential "
                 "correspondence under arbitrary polling orders.",
         "design_ref": "DESIGN.md §7 C02",
